@@ -31,7 +31,7 @@ ASSUMPTIONS = [
     "the legend's 'a->b:' prefix wording is not judged, only the <year>:<METHOD> tokens in order",
 ]
 
-HIST = gen.GenCfg(min_steps=3, max_steps=12, max_exchanges=3, max_holders=2)
+HIST = gen.GenCfg(min_steps=3, max_steps=12, max_exchanges=3, max_holders=2, bulk_prob=0.06)
 COUNTRIES = ("us", "us", "es", "ie", "jp", "generic")
 
 
@@ -230,7 +230,26 @@ def check_asset(ctx: Ctx, report: report_model.FullReport, asset: str, ref: Dict
         return ctx.fail("table_missing", f"sheet '{tax}': 'Gain / Loss Detail' not found")
     if len(data) != len(ref["fractions"]):
         return ctx.fail("detail_rows_count", f"sheet '{tax}' Gain / Loss Detail: {len(data)} rows, {len(ref['fractions'])} fractions in the window")
+    # k/n labels recounted from the list of fractions itself (independent of rp2's own counters).  A from-date hides rows
+    # without renumbering (C10), so the recount is exact only without one; with one, n can only be >= what is visible.
+    ev_seen: Dict[int, int] = {}
+    lot_seen: Dict[int, int] = {}
+    ev_count: Dict[int, int] = {}
+    lot_count: Dict[int, int] = {}
+    for f in ref["fractions"]:
+        ev_count[f["ev"]] = ev_count.get(f["ev"], 0) + 1
+        if f["lot"] is not None:
+            lot_count[f["lot"]] = lot_count.get(f["lot"], 0) + 1
     for (row_i, row), f in zip(data, ref["fractions"]):
+        ev_seen[f["ev"]] = ev_seen.get(f["ev"], 0) + 1
+        if f["ev_n"] != ev_count[f["ev"]] or f["ev_k"] != ev_seen[f["ev"]]:
+            return ctx.fail("fraction_label_wrong", f"sheet '{tax}' row {row_i + 1}: taxable event fraction labelled {f['ev_k']}/{f['ev_n']}, it is number {ev_seen[f["ev"]]} of the {ev_count[f["ev"]]} fractions of that event")
+        if f["lot"] is not None:
+            lot_seen[f["lot"]] = lot_seen.get(f["lot"], 0) + 1
+            if from_d is None and (f["lot_n"] != lot_count[f["lot"]] or f["lot_k"] != lot_seen[f["lot"]]):
+                return ctx.fail("fraction_label_wrong", f"sheet '{tax}' row {row_i + 1}: acquired lot fraction labelled {f['lot_k']}/{f['lot_n']}, it is number {lot_seen[f['lot']]} of the {lot_count[f['lot']]} fractions taken from that lot up to the to-date")
+            if from_d is not None and (f["lot_n"] < lot_count[f["lot"]] or f["lot_k"] < lot_seen[f["lot"]] or f["lot_k"] > f["lot_n"]):
+                return ctx.fail("fraction_label_wrong", f"sheet '{tax}' row {row_i + 1}: acquired lot fraction labelled {f['lot_k']}/{f['lot_n']}, but {lot_count[f['lot']]} fractions of that lot are visible and this is at least number {lot_seen[f['lot']]}")
         for col, key, what in ((0, "amount", "crypto amount"), (2, "running", "crypto amount running sum"), (3, "gain", "capital gains"), (7, "ev_pct", "taxable event fraction %"), (8, "proceeds", "taxable event amount fraction"), (9, "ev_price", "taxable event spot price")):
             if not check_num(ctx, tax, row_i, col, row, f[key], what):
                 return False
@@ -359,12 +378,17 @@ def evaluate(case: Dict[str, Any]) -> Outcome:
     out.classes.add(f"{case['country']}/{lang}")
     window = ("from" if case.get("from") else "") + ("+" if case.get("from") and case.get("to") else "") + ("to" if case.get("to") else "") or "none"
     out.classes.add(f"window_{window}")
+    out.classes |= cli_common.volume_classes(case)
     if case.get("schedule"):
         out.classes.add("schedule_multi")
     folder = cli_common.work_dir("c13")
     try:
         result, reference, outdir, rows_model = run_and_reference(case, folder)
         if result.rc != 0 or reference is None or not reference.get("ok"):
+            bucket = cli_common.aborted_in(result.text, "plugin/report/rp2_full_report.py") if result.rc != 0 else None
+            if bucket:
+                out.fail("full_report_generation_aborted", f"rp2_{case['country']} exited {result.rc} while writing the report: {bucket}")
+                return out
             out.skipped = "run_failed(C16)"
             return out
         from_d, to_d = model.parse_date(case.get("from")), model.parse_date(case.get("to"))
